@@ -204,6 +204,27 @@ def float_mode(chk: Check, n):
         if abs(p1.pvalue - p3.pvalue) > 1e-12 * max(p1.pvalue, 1e-300):
             chk.fail("scalar and mapping form of the ratio disagree",
                      dict(input=inp, scalar=float(p1.pvalue), mapping=float(p3.pvalue)))
+        # the ratio as a numpy scalar (a float subclass), variant ids of other kinds (bool, str): same p-value
+        if i % 3 == 1:
+            import numpy as np
+            for ids in ((False, True), ("a", "b"), (np.int64(0), np.int64(1))):
+                try:
+                    pn = tt.SampleRatio(np.float64(r), method=method, correction=corr).analyze(
+                        {ids[0]: A(cc), ids[1]: A(ct)}, ids[0], ids[1])
+                    pm = tt.SampleRatio({ids[0]: np.float64(1.0), ids[1]: np.float64(r)}, method=method,
+                                        correction=corr).analyze({ids[0]: A(cc), ids[1]: A(ct)}, ids[0], ids[1])
+                except Exception as ex:  # noqa: BLE001
+                    chk.fail("SampleRatio raised for a numpy.float64 ratio / non-integer variant ids",
+                             dict(input=inp, ids=repr(ids), error=repr(ex)))
+                    break
+                for lab, px in (("scalar numpy.float64 ratio", pn), ("mapping of numpy.float64", pm)):
+                    try:
+                        ok = abs(float(px.pvalue) - float(p1.pvalue)) <= 1e-12 * max(float(p1.pvalue), 1e-300)
+                    except (TypeError, ValueError):
+                        ok = False
+                    if not ok:
+                        chk.fail(f"SampleRatio with a {lab} and variant ids {ids!r} gives another p-value than with a "
+                                 "Python float and ids 0 / 1", dict(input=inp, observed=repr(px.pvalue), expected=float(p1.pvalue)))
         # ONE SampleRatio object with a mapping over three variants, used for every pair in turn (as Experiment.analyze
         # with all_variants=True does) and for a pair with its roles swapped: each answer must be the one a fresh object
         # with the pair's own scalar ratio gives
